@@ -35,11 +35,12 @@ class SFloat(Sym):
 
 class SStr(Sym):
     """z3 String; `code` is set when the string is known to be one character (code point term)."""
-    __slots__ = ("code",)
+    __slots__ = ("code", "opaque")
 
-    def __init__(self, z, code=None):
+    def __init__(self, z, code=None, opaque=False):
         self.z = z
         self.code = code
+        self.opaque = opaque      # text the engine deliberately knows nothing about (rendered values, messages)
 
 
 class SElem(Sym):
